@@ -1399,7 +1399,7 @@ def gen_cases(chk):
         c["stream"] = "corpus"
         cases.append(c)
     rng = chk.rng
-    n_est, n_dist, n_comb, n_grid = (200, 80, 600, 16) if quick else (600, 400, 3000, 60)
+    n_est, n_dist, n_comb, n_grid = (150, 60, 450, 14) if quick else (600, 400, 3000, 60)
     for _ in range(n_est):
         c = gen_est(rng, small=quick)
         c["stream"] = "random"
